@@ -928,6 +928,13 @@ func (e *Exec) summary(kind string, fn *ssa.Function, args []Value) (Value, *GoP
 		x := args[len(args)-1].(*Term)
 		return c.BinBV(OpMul, x, c.Const(x.sort.W, k)), nil
 	}
+	if strings.HasPrefix(kind, "div-to-u32:") {
+		// f(x) = uint32(x / k) exactly (e.g. MetricTicks(500).Ticks(120, d) = d in whole milliseconds: 1 tick per ms)
+		var k uint64
+		fmt.Sscanf(kind[len("div-to-u32:"):], "%d", &k)
+		x := args[len(args)-1].(*Term)
+		return c.Extract(c.BinBV(OpSDiv, x, c.Const(x.sort.W, k)), 31, 0), nil
+	}
 	e.unsupported("unknown summary kind %q", kind)
 	return nil, nil
 }
